@@ -7,9 +7,15 @@
   positions) returns exactly the requested resources in the requested order.  The correspondence
   check compares `res` after every op with the real world (get / get_mut / view_resources in every
   generated order and kind, also after clone, clone_from and serde round trips).
+  Resources inside schedules: `C15_phase_resource_safe` — of the tasks the stage runner lets run
+  at the same time (static stage members not yet run + add-ons), no two hold claims on one resource
+  with one of them mutable; `C15_task_leaves_unclaimed_resources` — under the footprint semantics
+  a task changes no resource it does not claim mutably.
 -/
 import BroodModel.World
 import BroodModel.Lemmas.RoundTrip
+import BroodModel.Props.C08
+import BroodModel.Lemmas.SchedSem
 
 namespace Brood
 open World
@@ -254,6 +260,31 @@ theorem C15_view (res : List Val) (ps : List Nat) (h : ∀ p ∈ ps, p < res.len
     obtain ⟨ih1, ih2⟩ := ih (fun q hq => h q (by simp [hq]))
     simp [List.filterMap_cons, List.getElem?_eq_getElem hp, ih1, ih2, List.getD_eq_getElem?_getD]
 
+open Static Generated in
+/-- **Resources inside schedules.**  Among the tasks that may run at the same time (the tasks of a
+stage that have not run yet and the next-stage tasks started early), no two claim the same resource
+with one of the claims mutable — for every schedule, set of archetypes and has-run pattern. -/
+theorem C15_phase_resource_safe {n nres : Nat} {masks : List Mask} (hm : masks.Nodup)
+    (ts : List Task) (hwf : ∀ t ∈ ts, t.WF) (stage : List Task)
+    (hs : stage ∈ stages verifierTable mergerTable ts) (next : List Task) (hasRun : List Bool) :
+    ((((List.zip stage hasRun).filter (fun p => !p.2)).map (·.1)) ++
+        accepted next (runStage claimTryMerge n nres masks stage hasRun next).2).Pairwise
+      (fun a b => ∀ p : Nat,
+        ((b.resVec nres).getD p .none).conflicts ((a.resVec nres).getD p .none) = false) := by
+  refine (C08_phase_conflict_free hm ts hwf stage hs next hasRun).imp ?_
+  intro a b h p
+  exact vecOk_getD h.1 (by rw [resVec_length, resVec_length]) p
+
+open Static Generated in
+/-- Under the footprint semantics a task changes only resources it claims mutably. -/
+theorem C15_task_leaves_unclaimed_resources (n nres : Nat) (masks : List Mask)
+    (g : Task → (SCell → Nat) → SCell → Nat) (t : Task) (s : SCell → Nat) (p : Nat)
+    (h : (t.resVec nres).getD p .none ≠ .mutable) :
+    apTask n nres masks g t s (.res p) = s (.res p) := by
+  have h' : (Task.resVec nres t)[p]?.getD Cl.none ≠ Cl.mutable := by simpa [List.getD] using h
+  unfold apTask
+  simp [Task.claimSCell, h']
+
 end Brood
 
 #print axioms Brood.C15_insert_frame
@@ -270,3 +301,5 @@ end Brood
 #print axioms Brood.C15_cloneFrom_res
 #print axioms Brood.cloneVal_eqv
 #print axioms Brood.C15_view
+#print axioms Brood.C15_phase_resource_safe
+#print axioms Brood.C15_task_leaves_unclaimed_resources
